@@ -268,9 +268,9 @@ func checkC07(e *core.Env) {
 
 	unaryCutPhase(e, "client", e.N(12, 150))
 
-	if e.Thorough() {
+	{
 		// a unary request whose first field ends exactly at the per-message limit: nothing after it may be lost
-		e.Cases("big-unary-request", 2, func(i int, r *rand.Rand) {
+		e.Cases("big-unary-request", e.N(1, 2), func(i int, r *rand.Rand) {
 			limit := int(perMessageLimit)
 			m := &tpb.Message{Payload: make([]byte, limit-5), Count: 77, Headers: map[string][]byte{"after": []byte("the limit")}}
 			body, _ := proto.MarshalOptions{Deterministic: true}.Marshal(m)
